@@ -130,8 +130,6 @@ class Machine:
                 fn()
                 if inst.op_code not in (OpCode.END, OpCode.JSR, OpCode.JUMP):
                     self._reg.pc += 1
-            self._clock.stop()
-            self._vm_io.flush()
             logging.debug(
                 'Stopped, _keep_running = {}, _pc = {}, program_len = {}'
                 .format(
@@ -139,6 +137,9 @@ class Machine:
         except Exception as ex:
             logging.error("Machine stopped due to {} at instruction {}"
                           .format(ex, self._reg.pc))
+        finally:
+            self._clock.stop()
+            self._vm_io.flush()
 
     def stop(self) -> None:
         self._keep_running = False
